@@ -124,6 +124,7 @@ theorem step_eq (s : St) (hinv : Inv s) (op : Op) : stepI s op = stepS s op := b
   cases op with
   | adv => exact adv_eq s hinv
   | grpNext g => rfl
+  | grpClose g => rfl
 
 /-- scanning keeps everything but items/cur/curKey, and ends with a value and a key -/
 theorem scanI_spec (t : Key) : ∀ (n : Nat) (s : St), s.items.length = n → s.cur.isSome → s.curKey.isSome →
@@ -324,6 +325,11 @@ theorem stepI_inv (s : St) (hinv : Inv s) (op : Op) : Inv (stepI s op).1 := by
   cases op with
   | adv => exact advI_inv s hinv
   | grpNext g => exact grpNext_inv s hinv g
+  | grpClose g =>
+    show Inv (grpClose s g)
+    unfold grpClose; split
+    · exact hinv.setGrpNone
+    · exact hinv
 
 theorem init_inv (items : List (Val × Key)) : Inv (init items) := by
   constructor <;> simp [init]
